@@ -642,6 +642,18 @@ def _cast(ex, st, args, kwargs):
 
 def _issubclass(ex, st, args, kwargs):
     a, b = args
+    if any(isinstance(x, SV) and isinstance(x.sort, tuple) and x.sort[0] == "opt" for x in (a, b)):
+        for st1, a1 in ex.narrow(st, a):
+            for st2, b1 in ex.narrow(st1, b):
+                if a1 is None or b1 is None:
+                    yield ex.raise_(st2, "TypeError")
+                else:
+                    yield from _issubclass(ex, st2, [a1, b1], kwargs)
+        return
+    if isinstance(a, Opaque) and isinstance(b, Opaque):
+        f = ex.uf(f"issubclass_{a.kind}_{b.kind}", z3sort(("u", a.kind)), z3sort(("u", b.kind)), z3.BoolSort())
+        yield st, SV("bool", f(a.t, b.t))
+        return
     if isinstance(a, ClassRef) and isinstance(b, ClassRef):
         names = [c.qualname for c in bm.class_mro(ex, a)] + bm.class_base_names(ex, a)
         yield st, b.qualname.split(".")[-1] in [n.split(".")[-1] for n in names]
@@ -955,6 +967,25 @@ def _m_partition(ex, st, s, args, kwargs):
             yield st1, (left, sep, right)
         else:
             yield st1, (s, "", "")
+
+
+def _m_rpartition(ex, st, s, args, kwargs):
+    (sep,) = args
+    if not is_sym(s) and not is_sym(sep):
+        yield st, s.rpartition(sep)
+        return
+    if isinstance(sep, str) and not sep:
+        yield ex.raise_(st, "ValueError")
+        return
+    t, p = sstr(s), sstr(sep)
+    idx = z3.LastIndexOf(t, p)
+    for st1, found in ex.branch(st, _wrap_bool(idx >= 0)):
+        if found:
+            left = SV("str", z3.SubString(t, 0, idx))
+            right = SV("str", z3.SubString(t, idx + z3.Length(p), z3.Length(t) - idx - z3.Length(p)))
+            yield st1, (left, sep, right)
+        else:
+            yield st1, ("", "", s)
 
 
 def _m_isdigit(ex, st, s, args, kwargs):
@@ -1350,7 +1381,7 @@ def _t_index(ex, st, t, args, kwargs):
 
 METHODS = {
     ("str", "strip"): _m_strip, ("str", "startswith"): _m_startswith, ("str", "endswith"): _m_endswith,
-    ("str", "find"): _m_find, ("str", "rfind"): _m_rfind, ("str", "partition"): _m_partition,
+    ("str", "find"): _m_find, ("str", "rpartition"): _m_rpartition, ("str", "rfind"): _m_rfind, ("str", "partition"): _m_partition,
     ("str", "isdigit"): _m_isdigit, ("str", "isalpha"): _m_isalpha, ("str", "lstrip"): _m_lstrip,
     ("str", "ljust"): _m_ljust, ("str", "replace"): _m_replace, ("str", "join"): _m_join,
     ("str", "split"): _m_split, ("str", "encode"): _m_encode, ("str", "upper"): _m_upper, ("str", "lower"): _m_lower,
